@@ -70,6 +70,10 @@ ALPHABET = [
     b'AUTH EXTERNAL',                                   # 16
     b'DATA ' + binascii.hexlify(b'org_sim_ctx 1 abcdef'),  # 17
     b'OK abc',                                          # 18 odd-length hex
+    b'OK 0123 4567 89ab cdef',                          # 19 blanks between digit pairs: not a GUID
+    b'OK 01\t23',                                       # 20
+    b'OK 0x1234abcd',                                   # 21
+    b'OK ' + GUID + b' trailing',                       # 22
 ]
 PREF = [b'EXTERNAL', b'DBUS_COOKIE_SHA1', b'ANONYMOUS']
 KNOWN_CMDS = (b'REJECTED', b'OK', b'DATA', b'ERROR', b'AGREE_UNIX_FD')
@@ -293,7 +297,7 @@ def scenario(ctx):
         script = [ALPHABET[i] for i in pre['lines']]
     else:
         n = 1 + ds.choose(20)
-        w = [4, 4, 2, 3, 3, 1, 1, 1, 1, 1, 2, 1, 2, 1, 1, 1, 1, 1, 1]
+        w = [4, 4, 2, 3, 3, 1, 1, 1, 1, 1, 2, 1, 2, 1, 1, 1, 1, 1, 1, 1, 0.7, 0.7, 0.7]
         script = [ALPHABET[ds.weighted(w)] for _ in range(n)]
     ctx.config.update(script=[s.decode('latin1') for s in script])
     todo = list(script)
@@ -361,7 +365,7 @@ def scenario(ctx):
 
 def sweep(tier):
     out = []
-    base = [0, 1, 2, 3, 4, 5, 6]
+    base = [0, 1, 2, 3, 4, 5, 6, 19]
     maxlen = 4 if tier == 'quick' else 5
     scripts = []
     for n in range(1, maxlen + 1):
@@ -377,5 +381,5 @@ def sweep(tier):
                     for _ in range(reps if kstate == 'ok' else max(1, reps // 6)):
                         refs.append({'mode': 'ref', 'accept': acc, 'agree': agree, 'unix': unix,
                                      'keyring': kstate})
-    return [('scripts<=%d over 7 symbols x unix/tcp' % maxlen, scripts),
+    return [('scripts<=%d over 8 symbols x unix/tcp' % maxlen, scripts),
             ('reference servers: 8 subsets x 2 fd answers x unix/tcp x 3 keyring states', refs)]
